@@ -242,6 +242,9 @@ func (t *c18Tr) unwrapBig(e ast.Expr) ast.Expr {
 
 func (t *c18Tr) expr(e ast.Expr) (string, error) {
 	e = t.unwrapBig(e)
+	if v, ok := t.env[t.src.show(e)]; ok {
+		return v, nil
+	}
 	switch x := e.(type) {
 	case *ast.BasicLit:
 		switch x.Kind {
@@ -296,6 +299,9 @@ func (t *c18Tr) expr(e ast.Expr) (string, error) {
 		b, err := t.expr(x.Y)
 		if err != nil {
 			return "", err
+		}
+		if r, ok := t.lenZero(x); ok {
+			return r, nil
 		}
 		switch x.Op {
 		case token.LAND:
@@ -376,6 +382,56 @@ func (t *c18Tr) expr(e ast.Expr) (string, error) {
 		}
 	}
 	return "", fmt.Errorf("cannot translate expression %s", t.src.show(e))
+}
+
+// lenZero: `len(s) == 0`, `0 < len(s)`, `len(s) > 0`, `len(s) != 0`, `0 == len(s)` for a string s are
+// translated as (in)equality with the empty string.
+func (t *c18Tr) lenZero(x *ast.BinaryExpr) (string, bool) {
+	isZero := func(e ast.Expr) bool {
+		b, ok := e.(*ast.BasicLit)
+		return ok && b.Kind == token.INT && b.Value == "0"
+	}
+	lenOf := func(e ast.Expr) (string, bool) {
+		c, ok := e.(*ast.CallExpr)
+		if !ok || len(c.Args) != 1 {
+			return "", false
+		}
+		if id, ok := c.Fun.(*ast.Ident); !ok || id.Name != "len" {
+			return "", false
+		}
+		a, err := t.expr(c.Args[0])
+		if err != nil || !t.strs[a] {
+			return "", false
+		}
+		return a, true
+	}
+	var s string
+	var ok bool
+	op := x.Op
+	if s, ok = lenOf(x.X); ok && isZero(x.Y) {
+		// len(s) op 0
+	} else if s, ok = lenOf(x.Y); ok && isZero(x.X) {
+		// 0 op len(s): mirror
+		switch op {
+		case token.LSS:
+			op = token.GTR
+		case token.GTR:
+			op = token.LSS
+		case token.LEQ:
+			op = token.GEQ
+		case token.GEQ:
+			op = token.LEQ
+		}
+	} else {
+		return "", false
+	}
+	switch op {
+	case token.EQL, token.LEQ:
+		return "decide (" + s + " = \"\")", true
+	case token.NEQ, token.GTR:
+		return "decide (" + s + " ≠ \"\")", true
+	}
+	return "", false
 }
 
 // c18Ctors: Lisp integer constructors whose conversion can change the value; every other
@@ -537,7 +593,7 @@ func (t *c18Tr) body(stmts []ast.Stmt, result string, leaf func(*c18Tr, ast.Expr
 		if err != nil {
 			return "", err
 		}
-		th, err := n.body(s.Body.List, result, leaf)
+		th, err := n.body(append(append([]ast.Stmt{}, s.Body.List...), stmts[1:]...), result, leaf)
 		if err != nil {
 			return "", err
 		}
@@ -546,14 +602,93 @@ func (t *c18Tr) body(stmts []ast.Stmt, result string, leaf func(*c18Tr, ast.Expr
 		case nil:
 			el, err = t.body(stmts[1:], result, leaf)
 		case *ast.BlockStmt:
-			el, err = n.body(e.List, result, leaf)
+			el, err = n.body(append(append([]ast.Stmt{}, e.List...), stmts[1:]...), result, leaf)
 		case *ast.IfStmt:
-			el, err = n.body([]ast.Stmt{e}, result, leaf)
+			el, err = n.body(append([]ast.Stmt{e}, stmts[1:]...), result, leaf)
 		}
 		if err != nil {
 			return "", err
 		}
 		return "(if " + c + " then " + th + " else " + el + ")", nil
+	case *ast.SwitchStmt:
+		if s.Init == nil && s.Tag != nil {
+			tag, err := t.expr(s.Tag)
+			if err != nil {
+				return "", err
+			}
+			var conds, vals []string
+			def := ""
+			for _, c := range s.Body.List {
+				cc := c.(*ast.CaseClause)
+				val, err := t.body(append(append([]ast.Stmt{}, cc.Body...), stmts[1:]...), result, leaf)
+				if err != nil {
+					return "", err
+				}
+				if cc.List == nil {
+					def = val
+					continue
+				}
+				var alts []string
+				for _, e := range cc.List {
+					a, err := t.expr(e)
+					if err != nil {
+						return "", err
+					}
+					alts = append(alts, "decide ("+tag+" = "+a+")")
+				}
+				conds = append(conds, "("+strings.Join(alts, " || ")+")")
+				vals = append(vals, val)
+			}
+			if def == "" {
+				def, err = t.body(stmts[1:], result, leaf)
+				if err != nil {
+					return "", err
+				}
+			}
+			out := def
+			for i := len(conds) - 1; i >= 0; i-- {
+				out = "(if " + conds[i] + " then " + vals[i] + " else " + out + ")"
+			}
+			return out, nil
+		}
+		if s.Init == nil && s.Tag == nil {
+			// switch { case c1: … default: … }
+			var conds, vals []string
+			def := ""
+			for _, c := range s.Body.List {
+				cc := c.(*ast.CaseClause)
+				val, err := t.body(append(append([]ast.Stmt{}, cc.Body...), stmts[1:]...), result, leaf)
+				if err != nil {
+					return "", err
+				}
+				if cc.List == nil {
+					def = val
+					continue
+				}
+				var alts []string
+				for _, e := range cc.List {
+					a, err := t.expr(e)
+					if err != nil {
+						return "", err
+					}
+					alts = append(alts, a)
+				}
+				conds = append(conds, "("+strings.Join(alts, " || ")+")")
+				vals = append(vals, val)
+			}
+			if def == "" {
+				var err error
+				def, err = t.body(stmts[1:], result, leaf)
+				if err != nil {
+					return "", err
+				}
+			}
+			out := def
+			for i := len(conds) - 1; i >= 0; i-- {
+				out = "(if " + conds[i] + " then " + vals[i] + " else " + out + ")"
+			}
+			return out, nil
+		}
 	}
 	return "", fmt.Errorf("cannot translate statement %s", t.src.show(stmts[0]))
 }
